@@ -13,6 +13,14 @@
 #include <string_view>
 #include <ostream>
 
+#ifdef CTPG_VERIF
+namespace ctpg_verif
+{
+    struct access;
+    [[noreturn]] void bounds_fail(const char* what, std::size_t idx, std::size_t cap);
+}
+#endif
+
 namespace ctpg
 {
 
@@ -155,6 +163,17 @@ namespace stdex
         constexpr size_type size() const { return current_size; }
         constexpr bool empty() const { return current_size == 0; }
         constexpr void reserve(size_type) const {};
+#ifdef CTPG_VERIF
+        constexpr void verif_chk(const char* what, bool ok, size_type idx) const { if (!ok) ::ctpg_verif::bounds_fail(what, idx, N); }
+        constexpr const T& operator[](size_type idx) const { verif_chk("cvector::operator[]", idx < N, idx); return the_data[idx]; }
+        constexpr T& operator[](size_type idx) { verif_chk("cvector::operator[]", idx < N, idx); return the_data[idx]; }
+        constexpr void push_back(const T& v) { verif_chk("cvector::push_back", current_size < N, current_size); the_data[current_size++] = v; }
+        constexpr void emplace_back(T&& v) { verif_chk("cvector::emplace_back", current_size < N, current_size); the_data[current_size++] = std::move(v); }
+        constexpr const T& front() const { return the_data[0]; }
+        constexpr T& front() { return the_data[0]; }
+        constexpr T& back() { verif_chk("cvector::back", current_size > 0, current_size); return the_data[current_size - 1]; }
+        constexpr const T& back() const { verif_chk("cvector::back", current_size > 0, current_size); return the_data[current_size - 1]; }
+#else
         constexpr const T& operator[](size_type idx) const { return the_data[idx]; }
         constexpr T& operator[](size_type idx) { return the_data[idx]; }
         constexpr void push_back(const T& v) { the_data[current_size++] = v; }
@@ -163,12 +182,17 @@ namespace stdex
         constexpr T& front() { return the_data[0]; }
         constexpr T& back() { return the_data[current_size - 1]; }
         constexpr const T& back() const { return the_data[current_size - 1]; }
+#endif
         constexpr const_iterator begin() const { return const_iterator(the_data); }
         constexpr const_iterator end() const { return const_iterator(the_data + current_size); }
         constexpr iterator begin() { return iterator(the_data); }
         constexpr iterator end() { return iterator(the_data + current_size); }
         constexpr void clear() { current_size = 0; }
+#ifdef CTPG_VERIF
+        constexpr void pop_back() { verif_chk("cvector::pop_back", current_size > 0, current_size); current_size--; }
+#else
         constexpr void pop_back() { current_size--; }
+#endif
         constexpr iterator erase(iterator first, iterator last)
         {
             if (!(first < last))
@@ -1864,6 +1888,9 @@ class parser<
     Limits
 >
 {
+#ifdef CTPG_VERIF
+    friend struct ::ctpg_verif::access;
+#endif
 private:
     using term_tuple_type = std::tuple<Terms...>;
     using nterm_tuple_type = std::tuple<NTerms...>;
@@ -3434,6 +3461,9 @@ namespace regex
     template<auto& Pattern>
     class expr
     {
+#ifdef CTPG_VERIF
+        friend struct ::ctpg_verif::access;
+#endif
     public:
         static const size32_t dfa_size = analyze_dfa_size(Pattern);
 
